@@ -82,10 +82,11 @@ def reruns(chk: Check) -> None:
     # mutation kinds beyond the abstract model's three (emptied directory, non-.py change, stale extra file)
     extra = []
     for b in beh:
-        if b["sc"]["existing"] == "different":
+        if b["sc"]["existing"] == "partial":
+            # the model's `partial` (nothing comparable changed) stands for all three: the code compares only *.py present on both sides
             for kind in ("emptied", "nonpy", "stale_extra"):
                 sc = dict(b["sc"], existing=kind)
-                extra.append({"sc": sc, "result": "raised" if kind != "stale_extra" else "ok", "viol": []})
+                extra.append({"sc": sc, "result": b["result"], "viol": b["viol"]})
     beh += extra
     if not thorough:
         beh = [b for b in beh if b["sc"]["cwd"] == "elsewhere" or b["sc"]["pp"]]
